@@ -3,6 +3,7 @@
   One op per line, key=value tokens:
     client auth= enc= integ= methods= ciphers= key=0|1 tok=0|1 | rc= sauth= senc= smethods= sciphers= skey=absent|bad|good replies= ok= haskey= post=
     server auth= enc= integ= methods= ciphers= key=0|1 | cauth= cenc= cmethods= cciphers= ckey= masks= ok= user=
+           [pc=<cmd>:<auth>:<enc>:<integ>:<methods>/… cmd=<int>|none acmd=<int>|none]   (per-command policies)
     honest cauth= cenc= cinteg= cmethods= cciphers= sauth= senc= sinteg= smethods= sciphers= ok= user=
   Lists are comma separated, `-` = empty; strings use `~` for the empty string.
 -/
@@ -37,6 +38,15 @@ def parsePost (s : String) : Option (Option PostAuth) :=
     | [sealed, rc, sid, user, vc] =>
       some (some ⟨sealed == "1", (if rc == "none" then none else some (str rc)), str sid, str user, str vc⟩)
     | _ => none
+
+def optInt (s : String) : Option (Option Int) := if s == "none" then some none else s.toInt?.map some
+
+/-- per-command policy table `cmd:auth:enc:integ:methods/…` (ciphers and key pair are the connection's) -/
+def parseTable (dflt : ServerCfg) (s : String) : Option (List (Int × ServerCfg)) :=
+  if s == "-" then some []
+  else (s.splitOn "/").mapM (fun e => match e.splitOn ":" with
+    | [c, a, en, i, ms] => c.toInt?.map (fun k => (k, { dflt with auth := str a, enc := str en, integ := str i, methods := lst ms }))
+    | _ => none)
 
 def step (_ : Unit) (toks : List String) : Unit × String :=
   let g := kv toks
@@ -74,10 +84,24 @@ def step (_ : Unit) (toks : List String) : Unit × String :=
         let cli : ClientScript := { auth := str ca, enc := str ce, methods := lst cms, ciphers := lst ccs,
                                     key := keyKind ck 1, masks := masks,
                                     authOK := fun m => if okl.contains m then some (str user) else none }
-        match serverFull cfg cli "sid" with
-        | .ok o _ => ((), showOutcome o ++ s!" user={if o.user == "" then "~" else o.user}")
-        | .denied _ d => ((), s!"denied auth={b01 d.authentication} enc={b01 d.encryption}")
-        | .failed er => ((), errStr er)
+        -- optional per-command policies: pc=<cmd>:<auth>:<enc>:<integ>:<methods>/... with cmd= and acmd=
+        -- (`none` = attribute not sent); without pc= the plain machine
+        let res : Option SrvResult :=
+          match g "pc" with
+          | none => some (serverFull cfg cli "sid")
+          | some pc =>
+            match parseTable cfg pc, g "cmd", g "acmd" with
+            | some table, some c, some ac =>
+              match optInt c, optInt ac with
+              | some cmd, some acmd =>
+                some (serverPerCommand cfg (fun k => (table.find? (·.1 == k)).map (·.2)) ⟨cmd, acmd⟩ cli "sid")
+              | _, _ => none
+            | _, _, _ => none
+        match res with
+        | some (.ok o _) => ((), showOutcome o ++ s!" user={if o.user == "" then "~" else o.user}")
+        | some (.denied _ d) => ((), s!"denied auth={b01 d.authentication} enc={b01 d.encryption}")
+        | some (.failed er) => ((), errStr er)
+        | none => ((), "bad-op")
       | none => ((), "bad-op")
     | _, _, _, _, _, _, _, _, _, _, _, _, _, _ => ((), "bad-op")
   | "honest" :: _ =>
